@@ -128,3 +128,215 @@ report = Contract(
     assumptions=["the optimizer library's report_result callback does not touch the record lists"],
 )
 CONTRACTS.append(report)
+
+
+# ------------------------------------------------- _get_and_report_next_future
+# C08 under any completion order of the futures: one call hands exactly one
+# finished future's result to the caller, reports exactly that result (once) and
+# removes exactly that future; results of other finished futures stay queued.
+PairT = Ty.Tuple([Ty.Key, Ty.Key])  # (setting, future)
+FutSelfT = ObjT("HyperOptimizer", {"_futures": Ty.List(PairT), "reported": Ty.List(PairT)})
+
+
+def _done(engine, st, args, node, kw):
+    """future.done(): any answer, at any time (the schedule is arbitrary)."""
+    b = engine.fresh(st, "done", node, Ty.BoolS)
+    d = st.decided(b)
+    if d is None:
+        raise NeedSplit(b)
+    return Ty.mk_bool(bool(d))
+
+
+def _result(engine, st, args, node, kw):
+    f = engine.keyterm(engine.deref(st, args[0]))
+    key = "uf!future_result"
+    if key not in engine.specfns:
+        engine.specfns[key] = (z3.Function(key, Ty.IntS, Ty.IntS), [], Ty.Int, None)
+    return V(Key, [engine.specfns[key][0](f)])
+
+
+def _report(engine, st, args, node, kw):
+    """self._maybe_report_result(setting, trial): recorded in the ghost list `reported`."""
+    selfref = args[0]
+    ob = engine.deref(st, selfref).clone()
+    rep = engine.deref(st, ob.fields["reported"])
+    pair = Ty.mk_tuple([engine.unbox_value(st, args[1]), engine.unbox_value(st, args[2])])
+    new = V(rep.t, [rep.c[0] + 1] + [z3.Store(a, rep.c[0], c) for a, c in zip(rep.c[1:], pair.c)])
+    if isinstance(ob.fields["reported"], type(selfref)):
+        st.heap[ob.fields["reported"].id] = new
+    else:
+        ob.fields["reported"] = new
+        st.heap[selfref.id] = ob
+    return Ty.mk_none()
+
+
+UNCHANGED = ("len(self._futures) == old(len(self._futures)) and forall(0, len(self._futures), lambda j: self._futures[j] == old(self._futures)[j])"
+             " and len(self.reported) == old(len(self.reported)) and forall(0, len(self.reported), lambda j: self.reported[j] == old(self.reported)[j])")
+from ..pyvc.contract import Loop  # noqa: E402
+
+next_future = Contract(
+    target="cotengra.hyperoptimizers.hyper:HyperOptimizer._get_and_report_next_future",
+    props=["C08"],
+    self_type=FutSelfT,
+    params={},
+    returns=Ty.Key,
+    externals={"*.done": _done, "*.result": _result, "HyperOptimizer._maybe_report_result": _report, "time.sleep": _none},
+    modifies=["self._futures", "self.reported"],
+    nloops=2,
+    loops={0: Loop(inv=[UNCHANGED]), 1: Loop(pos="t", inv=[UNCHANGED])},
+    ensures=[
+        "len(self._futures) == old(len(self._futures)) - 1",
+        "len(self.reported) == old(len(self.reported)) + 1",
+        "forall(0, old(len(self.reported)), lambda j: self.reported[j] == old(self.reported)[j])",
+        # the future that was removed is the one whose result is returned and reported, with its own setting
+        "exists(0, old(len(self._futures)), lambda i: result == old(self._futures)[i][1].result()"
+        " and self.reported[len(self.reported) - 1] == (old(self._futures)[i][0], result)"
+        " and forall(0, len(self._futures), lambda j: self._futures[j] == (old(self._futures)[j] if j < i else old(self._futures)[j + 1])))",
+    ],
+    assumptions=["future.done() may answer anything at any time; future.result() is a fixed value per future; termination of the polling loop is not proved",
+                 "_maybe_report_result is represented by a ghost list of (setting, trial) pairs"],
+)
+CONTRACTS.append(next_future)
+
+
+class _Fut:
+    def __init__(self, name, done_at):
+        self.name, self.done_at, self.polls = name, done_at, 0
+
+    def done(self):
+        self.polls += 1
+        return self.polls >= self.done_at
+
+    def result(self):
+        return "trial-of-" + self.name
+
+    def __repr__(self):
+        return f"Fut({self.name})"
+
+    def __eq__(self, other):  # the pre-state snapshot holds copies
+        return isinstance(other, _Fut) and other.name == self.name
+
+    def __hash__(self):
+        return hash(self.name)
+
+
+def _gen_next(rng):
+    from cotengra.hyperoptimizers.hyper import HyperOptimizer
+
+    opt = object.__new__(HyperOptimizer)
+    n = rng.randint(1, 4)
+    # several futures are typically finished at the same scan
+    opt._futures = [(f"setting{i}", _Fut(str(i), rng.choice((1, 1, 1, 2, 3)))) for i in range(n)]
+    opt.reported = []
+    opt._maybe_report_result = lambda setting, trial: opt.reported.append((setting, trial))
+    return {"self": opt, "args": (), "describe": f"futures finishing at poll {[f.done_at for _s, f in opt._futures]}"}
+
+
+next_future.gen = _gen_next
+
+
+# ------------------------------------------------------------------- _search
+# C08: after the search, `best` is an arg-min over the previous best and every
+# trial that was consumed (tie-breaking among equal scores is not specified); every trial the
+# generator yields is consumed (no time limit in this variant).
+BestT = Ty.SDict({"tree": Ty.Key, "score": Ty.Real, "flops": Ty.Real, "write": Ty.Real, "size": Ty.Real, "time": Ty.Real,
+                  "params": Ty.Map(Ty.Key, Ty.Key)})
+SearchT = ObjT(
+    "HyperOptimizer",
+    {
+        "max_time": Ty.NoneT, "_repeats_start": Ty.Int, "scores": RL, "max_repeats": Ty.Int, "_pool": Ty.Opt(Ty.Key), "progbar": Ty.Bool,
+        "best": BestT, "trials_since_best": Ty.Int, "param_choices": KL, "method_choices": KL,
+    },
+)
+
+
+def _setup(engine, st, args, node, kw):
+    return Ty.mk_tuple([V(Key, [engine.fresh(st, "trial_fn", node, Ty.IntS)]), V(Key, [engine.fresh(st, "trial_args", node, Ty.IntS)])])
+
+
+def _gen_results(engine, st, args, node, kw):
+    """the generator of trials: the ghost sequence TR (any length, any scores)"""
+    return st.vars["TR"]
+
+
+def _dict_of(engine, st, args, node, kw):
+    return engine.alloc(st, Ty.havoc(Ty.Map(Ty.Key, Ty.Key), f"dict@{engine.line(node)}"))
+
+
+TRL = Ty.List(BestT)
+search = Contract(
+    target="cotengra.hyperoptimizers.hyper:HyperOptimizer._search",
+    variant="no-time-limit",
+    props=["C08"],
+    self_type=SearchT,
+    params={"inputs": Ty.Key, "output": Ty.Key, "size_dict": Ty.Key},
+    ghost={"TR": (TRL, "None")},
+    hints={"trial": BestT, "trials": TRL},
+    externals={
+        "HyperOptimizer.setup": _setup, "HyperOptimizer._gen_results": _gen_results, "HyperOptimizer._gen_results_parallel": _gen_results,
+        "HyperOptimizer._maybe_cancel_futures": _none, "dict": _dict_of,
+    },
+    requires=[
+        "not self.progbar",
+        "'score' in self.best",
+        "forall(0, len(TR), lambda k: 'score' in TR[k])",
+        # the generator reports a trial (appending its setting) before yielding it
+        "len(self.param_choices) >= 1 and len(self.method_choices) >= 1",
+        "self.trials_since_best >= 0",
+    ],
+    modifies=["self.best", "self.trials_since_best"],
+    nloops=1,
+    loops={
+        0: Loop(
+            pos="t",
+            inv=[
+                "'score' in self.best",
+                "self.best['score'] <= old(self.best['score'])",
+                "forall(0, t, lambda k: self.best['score'] <= TR[k]['score'])",
+                # the winner is the previous best or one of the consumed trials (which one among equals is not part of the property)
+                "(bi == -1 and self.best['score'] == old(self.best['score']) and (('tree' in self.best) == old('tree' in self.best) and implies('tree' in self.best, self.best['tree'] == old(self.best['tree']))))"
+                " or (0 <= bi and bi < t and self.best['score'] == TR[bi]['score'] and (('tree' in self.best) == ('tree' in TR[bi]) and implies('tree' in self.best, self.best['tree'] == TR[bi]['tree']))"
+                ")",
+                "self.trials_since_best >= 0",
+            ],
+            # bi follows the decision the code took (it resets trials_since_best exactly when it replaces best)
+            ghosts={"bi": ("-1", "(t - 1) if self.trials_since_best == 0 else prev(bi)")},
+        )
+    },
+    ensures=[
+        "'score' in self.best",
+        "self.best['score'] <= old(self.best['score'])",
+        "forall(0, len(TR), lambda k: self.best['score'] <= TR[k]['score'])",
+        "(self.best['score'] == old(self.best['score']) and (('tree' in self.best) == old('tree' in self.best) and implies('tree' in self.best, self.best['tree'] == old(self.best['tree']))))"
+        " or exists(0, len(TR), lambda b: self.best['score'] == TR[b]['score'] and (('tree' in self.best) == ('tree' in TR[b]) and implies('tree' in self.best, self.best['tree'] == TR[b]['tree'])))",
+    ],
+    assumptions=["variant max_time=None, progbar=False; the trial generator (sequential or parallel) is represented by an arbitrary finite sequence of trial records; "
+                 "`self.best = trial` stores the record by value (the later `best['params'] = ...` also lands in the trial dict in CPython: aliasing not modelled)"],
+)
+CONTRACTS.append(search)
+
+
+def _gen_search(rng):
+    from cotengra.hyperoptimizers.hyper import HyperOptimizer
+
+    opt = object.__new__(HyperOptimizer)
+    n = rng.randint(0, 6)
+    scores = [rng.choice((1.0, 2.0, 2.0, 3.0, 5.0, float("inf"))) for _ in range(n)]
+    TR = [{"score": s, "tree": f"tree{k}", "flops": s, "write": s, "size": s, "time": 0.0} if s < float("inf") else {"score": s, "flops": s, "write": s, "size": s, "time": 0.0}
+          for k, s in enumerate(scores)]
+    opt.max_time, opt._repeats_start, opt.scores, opt.max_repeats, opt._pool, opt.progbar = None, 0, [], n, rng.choice((None, "pool")), False
+    b = rng.choice((float("inf"), 2.0, 4.0))
+    opt.best = {"score": b, "tree": "old-tree"} if b < float("inf") else {"score": b}
+    opt.trials_since_best = 0
+    opt.param_choices, opt.method_choices = [{"p": 1}], ["greedy"]
+    import copy
+
+    snapshot = copy.deepcopy(TR)
+    opt.setup = lambda *a: ("fn", "args")
+    opt._gen_results = lambda *a: iter(TR)
+    opt._gen_results_parallel = lambda *a: iter(TR)
+    opt._maybe_cancel_futures = lambda: None
+    return {"self": opt, "args": ("in", "out", "sd"), "ghost": {"TR": snapshot}, "describe": f"best={b} trial scores={scores}"}
+
+
+search.gen = _gen_search
